@@ -119,7 +119,8 @@ class RecordingCV:
     cross-validator whose train set is *not* the complement of the test set).
     """
 
-    def __init__(self, inner, label, thin=0.0, thin_seed=0):
+    def __init__(self, inner, label, thin=0.0, thin_seed=0, as_list=False):
+        self.as_list = bool(as_list)  # split() returns a list instead of a generator
         self.inner = inner
         self.label = label
         self.thin = float(thin)
@@ -133,6 +134,11 @@ class RecordingCV:
         return _CALLS.setdefault(self.uid, [])
 
     def split(self, X, y=None, groups=None):  # noqa: N803
+        if self.as_list:
+            return list(self._split(X, y, groups))
+        return self._split(X, y, groups)
+
+    def _split(self, X, y=None, groups=None):  # noqa: N803
         rec = {"X": np.array(X, dtype="float64", copy=True), "splits": [], "thread": threading.get_ident(), "done": False}
         with _CALLS_LOCK:
             self.calls.append(rec)
@@ -178,14 +184,77 @@ class HarnessScorer:
 METRICS = ("r2", "neg_mean_squared_error", "neg_root_mean_squared_error", "neg_mean_absolute_error", "callable")
 
 
+_SKLEARN_METRIC_FUNCTIONS = {"r2_score": (1, "r2"), "mean_squared_error": (-1, "neg_mean_squared_error"),
+                             "root_mean_squared_error": (-1, "neg_root_mean_squared_error"),
+                             "mean_absolute_error": (-1, "neg_mean_absolute_error")}
+
+
+class PlainCallable:
+    """
+    scorer(estimator, X, y, sample_weight=None) for one of the standard metrics, spelled as a plain callable.
+    Computes through sklearn.metrics (the reference side recomputes the same metric with its own numpy formula).
+    """
+
+    def __init__(self, name):
+        self.name = name
+
+    def __call__(self, estimator, X, y, sample_weight=None):  # noqa: N803
+        import sklearn.metrics as skm
+
+        pred = estimator.predict(X)
+        if self.name == "r2":
+            return skm.r2_score(y, pred, sample_weight=sample_weight)
+        if self.name == "neg_mean_squared_error":
+            return -skm.mean_squared_error(y, pred, sample_weight=sample_weight)
+        if self.name == "neg_root_mean_squared_error":
+            return -skm.root_mean_squared_error(y, pred, sample_weight=sample_weight)
+        if self.name == "neg_mean_absolute_error":
+            return -skm.mean_absolute_error(y, pred, sample_weight=sample_weight)
+        raise ValueError(self.name)
+
+    def __repr__(self):
+        return "PlainCallable(%r)" % self.name
+
+
 def scoring_name(scoring):
+    """The metric a scoring specification stands for: None, a string, a scikit-learn scorer object or a harness callable."""
     if scoring is None:
         return "r2"
     if isinstance(scoring, HarnessScorer):
         return "callable"
+    if isinstance(scoring, PlainCallable):
+        return scoring.name
     if isinstance(scoring, str):
         return scoring
+    func = getattr(scoring, "_score_func", None)  # sklearn.metrics.get_scorer / make_scorer objects
+    sign = getattr(scoring, "_sign", None)
+    if func is not None and getattr(func, "__name__", None) in _SKLEARN_METRIC_FUNCTIONS and not getattr(scoring, "_kwargs", None):
+        want_sign, name = _SKLEARN_METRIC_FUNCTIONS[func.__name__]
+        if sign == want_sign:
+            return name
     return None
+
+
+def spell_scoring(name, spelling):
+    """The same metric as a string, a scikit-learn scorer object (get_scorer / make_scorer), a plain callable, or None (default R2)."""
+    import sklearn.metrics as skm
+
+    if name == "callable":
+        return HarnessScorer()
+    if spelling == "none":
+        assert name == "r2"
+        return None
+    if spelling == "string":
+        return name
+    if spelling == "get_scorer":
+        return skm.get_scorer(name)
+    if spelling == "make_scorer":
+        func = {"r2": skm.r2_score, "neg_mean_squared_error": skm.mean_squared_error,
+                "neg_root_mean_squared_error": skm.root_mean_squared_error, "neg_mean_absolute_error": skm.mean_absolute_error}[name]
+        return skm.make_scorer(func, greater_is_better=(name == "r2"))
+    if spelling == "plain_callable":
+        return PlainCallable(name)
+    raise ValueError(spelling)
 
 
 def np_metric(name, y, pred, w):
